@@ -289,7 +289,15 @@ func cmdFuzz(args []string) {
 		}
 	}
 	if *only != "" {
-		text, _ := base64.StdEncoding.DecodeString(*only)
+		b64 := *only
+		if strings.HasPrefix(b64, "@") { // large inputs do not fit on a command line: the base64 text is in a file
+			fb, err := os.ReadFile(b64[1:])
+			if err != nil {
+				fatal("read %s: %v", b64[1:], err)
+			}
+			b64 = strings.TrimSpace(string(fb))
+		}
+		text, _ := base64.StdEncoding.DecodeString(b64)
 		for ci := range fuzzConfigs {
 			emit(ci, text, ci)
 		}
